@@ -159,10 +159,22 @@ func cmdRegistry(args []string) {
 		}
 		ida, idb := idTable[a], idTable[b]
 		sa := regs[a]
+		// Has for EVERY registered id (whenever it was registered relative to the entity's table) is membership
+		profile := func(e ecs.Entity, want map[int]bool) bool {
+			for j := range regs {
+				if w.Has(e, idTable[j]) != want[j] {
+					return false
+				}
+				if (w.Get(e, idTable[j]) != nil) != (want[j] && regs[j].sized && regs[j].tp.Size() >= 1) && regs[j].sized && regs[j].tp.Size() >= 1 {
+					return false
+				}
+			}
+			return true
+		}
 		var e ecs.Entity
 		ok := step("create", func() interface{} { e = w.NewEntity(ida); return w.Alive(e) })
 		if ok {
-			step("has", func() interface{} { return w.Has(e, ida) })
+			step("has", func() interface{} { return w.Has(e, ida) && profile(e, map[int]bool{a: true}) })
 			step("get-non-nil", func() interface{} { return w.Get(e, ida) != nil })
 			if sa.sized && sa.tp.Size() >= 1 {
 				step("write-read", func() interface{} {
@@ -211,7 +223,13 @@ func cmdRegistry(args []string) {
 				step("relation", func() interface{} {
 					t := w.NewEntity()
 					w.Relations().Set(e, ida, t)
-					got := w.Relations().Get(e, ida) == t
+					// the entity now sits in a table of its own target (possibly a retired table put to use again)
+					now := map[int]bool{}
+					mk := w.Mask(e)
+					for j := range regs {
+						now[j] = mk.Get(idTable[j])
+					}
+					got := w.Relations().Get(e, ida) == t && now[a] && profile(e, now)
 					w.Relations().Set(e, ida, ecs.Entity{})
 					w.RemoveEntity(t)
 					return got
